@@ -332,6 +332,10 @@ func runC09(r *mc.Report, e *Env) {
 		nw := newC09Net()
 		defer nw.close()
 		sampled := map[string]bool{}
+		if freeRuns > 0 { // race-detector pass: only the concurrent-offer part
+			c09Race(r, e, nw)
+			return
+		}
 		for _, c := range cases {
 			if over.Load() {
 				r.NotExhaustive("internal deadline reached")
